@@ -220,6 +220,10 @@ func runClientConnExecution(t *testing.T, seed int64, log *traceLog) {
 				srv.peers = append(srv.peers, ccPeer{ip, port, &net.UDPAddr{IP: net.IPv4(10, 1, 0, byte(i+1)).To4(), Port: 5000 + port}})
 			}
 		}
+		// two more peers whose addresses, written without a separator between IP and port, read the same:
+		// 10.1.0.1:23456 and 10.1.0.12:3456
+		srv.peers = append(srv.peers, ccPeer{"A", 18456, &net.UDPAddr{IP: net.IPv4(10, 1, 0, 1).To4(), Port: 23456}},
+			ccPeer{"D", 1, &net.UDPAddr{IP: net.IPv4(10, 1, 0, 12).To4(), Port: 3456}})
 		// reaction profile of this execution
 		profile := rng.Intn(6)
 		npeers := len(srv.peers)
@@ -396,6 +400,18 @@ func runClientConnExecution(t *testing.T, seed int64, log *traceLog) {
 			}
 			if op != closedAt && closedAt != -2 && rng.Intn(25) == 0 && (closedAt < 0 || op < closedAt) {
 				blockedRead("deadline")
+			}
+			if rng.Intn(12) == 0 && (closedAt < 0 || op < closedAt) {
+				// the application asks for a permission itself (it may be refused): what WriteTo does afterwards
+				// still depends on what the server answered
+				p := srv.peers[rng.Intn(len(srv.peers))]
+				omu.Lock()
+				free := busyIP[p.ip] == 0 && outstanding == 0
+				omu.Unlock()
+				if free {
+					_ = cl.CreatePermission(p.addr)
+					synctest.Wait()
+				}
 			}
 			switch x := rng.Intn(100); {
 			case x < 45: // WriteTo, possibly concurrent with earlier ones
